@@ -397,6 +397,14 @@ class CallMixin:
                 continue
             else:
                 raise Unsupported(f"constructor {cls}: missing field {fname}")
+        for f_, v_ in list(vals.items()):
+            if isinstance(v_, VList) and not self.spec:
+                # an empty display `[]` given for a field declared as a REFERENCE to a class that models a list object
+                # ("boxed_list"): the display is a NEW list object with empty content, as for a local (new_container_object;
+                # any other list value for such a field is refused there)
+                o_ = self.new_container_object(self.shape(info["fields"][f_]), v_, node, st)
+                if o_ is not None:
+                    vals[f_] = o_
         if info.get("kind") == "record":
             if getattr(self.sidecar, "NONNULL_FIELDS", False) and not self.spec:
                 # opt-in of the sidecar: an Optional value passed for a record field declared non-Optional must be shown
@@ -1103,6 +1111,16 @@ class CallMixin:
     def bi_isinstance(self, args, kw, node, st):
         if len(args) == 2 and isinstance(args[1], VFunc) and args[1].kind == "builtin" and args[1].payload == "str" and is_str(args[0]):
             return True  # a value of the engine's string sort is a Python str
+        if len(args) == 2 and isinstance(args[0], (VRef, VRec)) and isinstance(self.classes.get(args[0].cls, {}).get("isinstance"), dict):
+            # an object of a third-party class modelled by the sidecar: its class entry declares ("isinstance": {"<class>": bool},
+            # keys `str` for the builtin, `module.QualName` for a class object) of which of the classes the code tests for it is an
+            # instance - part of the sidecar's model of that class (trusted base); a class that is not declared is refused
+            c_ = args[1]
+            nm_ = c_.payload if isinstance(c_, VFunc) and c_.kind == "builtin" else (
+                f"{c_.obj.__module__}.{c_.obj.__qualname__}" if isinstance(c_, VConc) and isinstance(c_.obj, type) else None)
+            tbl_ = self.classes[args[0].cls]["isinstance"]
+            if nm_ in tbl_ and isinstance(tbl_[nm_], bool):
+                return tbl_[nm_]
         raise Unsupported("isinstance")
 
     def bi_all(self, args, kw, node, st):
